@@ -4,6 +4,7 @@ import (
 	"encoding/hex"
 	"fmt"
 	"math/rand"
+	"os"
 	"regexp"
 	"sort"
 	"strings"
@@ -231,9 +232,14 @@ type dbt struct {
 	values map[string]bool                  // every tag value written so far
 	rxSent map[string]string                // pattern -> table row already sent
 	placed bool
-	flushedVals map[string]bool // values that were in a dictionary table when a meta flush happened
-	immVals     map[string]bool // values captured by prepare-meta (will be persisted by the next flush-meta)
-	memVals     map[string]bool
+	silent bool // implementation + oracle only: no protocol lines (cases too large for the list model)
+	// the tag-value dictionary's table state machine (entry = metric, key, value), kept to tell which
+	// values are in flushed tries: PrepareFlush swaps when no or an empty immutable table exists; Flush
+	// persists and clears a NON-EMPTY immutable table only
+	dictSeen    map[string]bool
+	memVals     map[string]string // entry -> value, mutable table
+	immVals     map[string]string // immutable table
+	flushedVals map[string]bool   // values of entries in flushed tries
 	immSet      bool
 }
 
@@ -244,10 +250,27 @@ func newDBT(c *core.Ctx) (*dbt, error) {
 	}
 	c.Op("reset", "ok")
 	return &dbt{c: c, e: e, series: map[string]map[uint32]*seriesRec{}, keys: map[string]map[string]bool{},
-		values: map[string]bool{}, rxSent: map[string]string{}, flushedVals: map[string]bool{}, immVals: map[string]bool{}, memVals: map[string]bool{}}, nil
+		values: map[string]bool{}, rxSent: map[string]string{}, flushedVals: map[string]bool{}, immVals: map[string]string{},
+		memVals: map[string]string{}, dictSeen: map[string]bool{}}, nil
 }
 
 func (d *dbt) close() { d.e.close() }
+
+// guard = c.Guard unless the case is silent (then only the panic check remains).
+func (d *dbt) guard(op string, f func() string) {
+	if !d.silent {
+		d.c.Guard(op, f)
+		return
+	}
+	defer func() {
+		if r := recover(); r != nil {
+			d.c.Fail("panic", fmt.Sprintf("op %q panicked: %v", op, r))
+		}
+	}()
+	if out := f(); strings.HasPrefix(out, "err ") {
+		d.c.Fail("harness-env", op+": "+out)
+	}
+}
 
 const nsName = "ns"
 
@@ -267,7 +290,7 @@ func (d *dbt) write(name string, tags map[string]string) {
 		kvs = append(kvs, [2]string{k, tags[k]})
 	}
 	op := strings.Join(parts, " ")
-	d.c.Guard(op, func() string {
+	d.guard(op, func() string {
 		id, err := d.e.write(nsName, name, kvs)
 		if err != nil {
 			return "err " + strings.ReplaceAll(err.Error(), " ", "_")
@@ -290,7 +313,10 @@ func (d *dbt) write(name string, tags map[string]string) {
 			cp[k] = v
 			d.keys[name][k] = true
 			d.values[v] = true
-			d.memVals[v] = true
+			if e := name + "\x00" + k + "\x00" + v; !d.dictSeen[e] {
+				d.dictSeen[e] = true
+				d.memVals[e] = v
+			}
 		}
 		m[id] = &seriesRec{id: id, tags: cp}
 		return fmt.Sprintf("series %d new", id)
@@ -312,22 +338,22 @@ func sameTags(a, b map[string]string) bool {
 func (d *dbt) place(op string) {
 	d.placed = true
 	d.c.Branch("place/" + op)
-	d.c.Guard(op, func() string {
+	d.guard(op, func() string {
 		var err error
 		switch op {
 		case "prepare-meta":
 			d.e.meta.PrepareFlush()
-			if !d.immSet {
+			if !d.immSet || len(d.immVals) == 0 {
 				d.immSet = true
-				d.immVals, d.memVals = d.memVals, map[string]bool{}
+				d.immVals, d.memVals = d.memVals, map[string]string{}
 			}
 		case "flush-meta":
 			err = d.e.meta.Flush()
 			if d.immSet && len(d.immVals) > 0 {
-				for v := range d.immVals {
+				for _, v := range d.immVals {
 					d.flushedVals[v] = true
 				}
-				d.immVals = map[string]bool{}
+				d.immVals = map[string]string{}
 				d.immSet = false
 			}
 		case "compact-meta":
@@ -342,7 +368,14 @@ func (d *dbt) place(op string) {
 		if err != nil {
 			return "err " + strings.ReplaceAll(err.Error(), " ", "_")
 		}
-		return "ok"
+		// the number of level-0 files makes the table/file state machine observable
+		if strings.HasSuffix(op, "-meta") {
+			l0, _ := d.e.fileCounts(true, "tv")
+			return fmt.Sprintf("ok tv=%d", l0)
+		}
+		i0, _ := d.e.fileCounts(false, "inverted")
+		f0, _ := d.e.fileCounts(false, "forward")
+		return fmt.Sprintf("ok inv=%d fwd=%d", i0, f0)
 	})
 }
 
@@ -378,7 +411,9 @@ func (d *dbt) sendRx(cond stmt.Expr) {
 			continue
 		}
 		d.rxSent[rx.Regexp] = line
-		d.c.Op(line, "ok")
+		if !d.silent {
+			d.c.Op(line, "ok")
+		}
 	}
 }
 
@@ -439,7 +474,9 @@ func (d *dbt) query(name string, cond stmt.Expr, groupBy []string, how string) {
 	}
 	op := "q " + metricTok(name) + " " + gb + " " + toks
 	res := d.e.query(nsName, name, cond, groupBy)
-	d.c.Op(op, res.line(groupBy))
+	if !d.silent {
+		d.c.Op(op, res.line(groupBy))
+	}
 	d.c.Branch("query/" + how)
 	d.oracle(name, cond, groupBy, &res)
 }
@@ -487,6 +524,23 @@ func (d *dbt) oracle(name string, cond stmt.Expr, groupBy []string, res *queryRe
 	fail := func(key, desc string) {
 		if k := d.classify(cond, res); k != "" {
 			key = k
+		}
+		if os.Getenv("LVH_C10_DEBUG") != "" {
+			var fl, im, me []string
+			for v := range d.flushedVals {
+				fl = append(fl, v)
+			}
+			for _, v := range d.immVals {
+				im = append(im, v)
+			}
+			for _, v := range d.memVals {
+				me = append(me, v)
+			}
+			sort.Strings(fl)
+			desc += fmt.Sprintf(" {flushed %q imm %q mem %q immSet %v}", fl, im, me, d.immSet)
+			for id, rec := range d.series[name] {
+				desc += fmt.Sprintf(" %d:%v", id, rec.tags)
+			}
 		}
 		c.Fail(key, fmt.Sprintf("%s [cond %s, group by %v]", desc, cond.Rewrite(), groupBy))
 	}
